@@ -175,6 +175,52 @@ func runJobQueue(p *core.Prog) *core.Result {
 	}
 	finallyThroughResolve(p, res)
 	drainBuffers(p, res)
+	// a job runs from leave() with nothing below it on the call stack: the script it calls must run
+	// under a try frame of its own (a closure handed to vm.try), so that a thrown exception becomes a
+	// rejection and an interrupt finds the boundary marker it unwinds to (seed C10/g called the
+	// await continuation directly)
+	cjc, err := p.GojaMethod("Runtime", "callJobCallback")
+	if err != nil {
+		return res.Fail(err)
+	}
+	vmTry, err := p.GojaMethod("vm", "try")
+	if err != nil {
+		return res.Fail(err)
+	}
+	rtTry, err := p.GojaMethod("Runtime", "try")
+	if err != nil {
+		return res.Fail(err)
+	}
+	nJob := 0
+	for _, f := range p.Funcs {
+		for _, c := range core.CallsIn(f, cjc) {
+			nJob++
+			key := fmt.Sprintf("%s:job callback runs under vm.try#%d", core.FuncName(core.EnclosingTop(f)), nJob)
+			under := false
+			if parent := f.Parent(); parent != nil {
+				core.AllInstrs(parent, func(in ssa.Instruction) {
+					call, ok := in.(ssa.CallInstruction)
+					if !ok {
+						return
+					}
+					sc := call.Common().StaticCallee()
+					if sc != vmTry && sc != rtTry {
+						return
+					}
+					for _, a := range call.Common().Args {
+						if mc, ok := a.(*ssa.MakeClosure); ok && mc.Fn == f {
+							under = true
+						}
+					}
+				})
+			}
+			if under {
+				res.OK(key, p.Pos(c.Pos()), "inside a closure passed to vm.try")
+			} else {
+				res.Bad(key, p.Pos(c.Pos()), "a promise job calls back into script outside a vm.try closure: the handler's exception is not turned into a rejection (it escapes leave() as a Go panic) and an interrupt inside it finds no boundary frame, so the interrupted call never reaches leaveAbrupt()")
+			}
+		}
+	}
 	return res
 }
 
